@@ -1,8 +1,14 @@
+import CharsetProof.Lemmas.CmpSwap
 import CharsetProof.Lemmas.Ranking
 import CharsetProof.Lemmas.SortPerm
 import CharsetProof.Lemmas.SortWinner
 import CharsetProof.Props.C08
+import CharsetProof.Props.C08b
 open Charset
+#print axioms C08_preference_asymm
+#print axioms C08_preferred_to_all_first
+#print axioms C08_all_preferred_to_last
+#print axioms Fl.abs_sub_comm
 #print axioms C08_lt_iff_spec
 #print axioms C08_get_best
 #print axioms C08_winner_first
